@@ -3,8 +3,11 @@
 use crate::ConcurrencyAlgorithm;
 use std::future::Future;
 use std::pin::Pin;
+#[cfg(not(feature = "verif-hooks"))]
 use std::sync::atomic::{AtomicUsize, Ordering};
 use std::sync::Arc;
+#[cfg(feature = "verif-hooks")]
+use tower_resilience_core::verif::atomic::{AtomicUsize, Ordering};
 use std::task::{Context, Poll};
 #[cfg_attr(feature = "verif-hooks", allow(unused_imports))]
 use std::time::Instant;
